@@ -855,10 +855,12 @@ class BaseParser:
         return "".join(lines)
 
     def _set_error(self, msg, loc=None):
-        assert self._error is None
-        if loc is None:
-            loc = self.currloc(self.lineno, self.col)
-        self._error = (msg, loc)
+        if self._error is None:
+            # keep the first error: PLY's error recovery may run further
+            # actions that report follow-up errors for the same input
+            if loc is None:
+                loc = self.currloc(self.lineno, self.col)
+            self._error = (msg, loc)
         raise SyntaxError()
 
     def _parse_error(self, msg, loc):
